@@ -35,7 +35,7 @@ const creds = "Proxy-Authorization: Basic dTpw\r\n" // u:p
 
 var kindNames = []string{"ok", "denied-403", "unauthenticated-407", "dial-error", "origin-reset-mid-body", "connect-client-closes-first",
 	"connect-target-closes-first", "upgrade", "mitm-inner-request", "rejected-upstream-connect", "client-abort-uploading", "client-abort-downloading",
-	"head", "post", "connect-client-aborts-while-dialling", "upgrade-client-aborts-before-101", "client-abort-before-response", "overlapping-same-request-id", "ok-via-connect-to", "upgrade-connection-close", "connect-terminate-tls-fails", "ok-response-advertises-upgrade", "upgrade-required-426"}
+	"head", "post", "connect-client-aborts-while-dialling", "upgrade-client-aborts-before-101", "client-abort-before-response", "overlapping-same-request-id", "ok-via-connect-to", "upgrade-connection-close", "connect-terminate-tls-fails", "ok-response-advertises-upgrade", "upgrade-required-426", "connect-via-silent-upstream-proxy", "connect-via-upstream-proxy"}
 
 type ledger struct {
 	totals map[string]int // "code,method" -> count; code "*" = any code
@@ -298,6 +298,47 @@ func (s *st) exchange(kind string, c *world.Peer) *world.Peer {
 		}
 		tc.Close()
 		return nil
+	case "connect-via-silent-upstream-proxy", "connect-via-upstream-proxy":
+		// (round 9) a CONNECT relayed through the upstream HTTP proxy. Silent variant: the upstream proxy accepts the connection,
+		// reads the CONNECT and never answers: the connect time-out (60 s) ends the attempt, the client gets an error
+		// response, the request completes once and the socket to the upstream proxy is released (dialer gauge back to 0)
+		h := s.hop("up.test:8080", nil)
+		c.Send([]byte("CONNECT tunnel-viaup.test:443 HTTP/1.1\r\nHost: tunnel-viaup.test:443\r\n" + creds + "\r\n"))
+		msgs, conns, _ := h.Next()
+		if len(msgs) != 1 || msgs[0].Method != "CONNECT" {
+			x.Failf("harness/exchange", "%s: the upstream proxy did not get a CONNECT (client holds %q)", kind, world.Clip(c.Recv()))
+			return nil
+		}
+		up := h.Conns[conns[0]]
+		if kind == "connect-via-upstream-proxy" {
+			up.Send([]byte("HTTP/1.1 200 OK\r\n\r\n"))
+			if !expectStatus(c, methods("CONNECT"), 200) {
+				return nil
+			}
+			c.Send([]byte("ping"))
+			up.Send([]byte("pong"))
+			s.checkMetrics("inside "+kind, map[string]int{"CONNECT": 1})
+			c.Close()
+			world.Settle(2 * time.Minute)
+			up.Close()
+			s.count(200, "CONNECT")
+			return nil
+		}
+		s.checkMetrics("inside "+kind+" (upstream proxy silent)", map[string]int{"CONNECT": 1})
+		world.Settle(3 * time.Minute)
+		rs := httpwire.ParseResponses(c.Recv(), methods("CONNECT"), false)
+		if len(rs.Msgs) == 0 {
+			x.Failf("harness/exchange", "%s: no response three minutes after the upstream proxy fell silent: %q", kind, world.Clip(c.Recv()))
+			return nil
+		}
+		s.count(rs.Msgs[len(rs.Msgs)-1].Status, "CONNECT")
+		// (the upstream proxy keeps its end open: whether the proxy has released its own end is what the dialer gauge
+		// and the network's view of open sockets are compared on)
+		if !h.Raw[conns[0]].PeerReleased() {
+			x.Failf("dialled-connection-not-closed", "%s: the proxy gave up the CONNECT through the upstream proxy (client got %q) but still holds the connection to it", kind, world.Clip(c.Recv()))
+		}
+		up.Close()
+		return nil
 	case "connect-client-aborts-while-dialling":
 		// the client vanishes while the proxy is still connecting to the target: the 200 that establishes
 		// the tunnel cannot be written; the request still completes exactly once and the target socket is released
@@ -522,7 +563,7 @@ func scenario(x *explore.X, maxLen int) {
 		BasicAuth:      "u:p",
 		DenyDomains:    []string{`^denied\.test$`},
 		MITMDomains:    []string{`^mitm(-viaup)?\.test$`},
-		PAC:            `function FindProxyForURL(url, host) { if (host == "mitm-viaup.test") return "PROXY up.test:8080"; return "DIRECT"; }`,
+		PAC:            `function FindProxyForURL(url, host) { if (host == "mitm-viaup.test" || host == "tunnel-viaup.test") return "PROXY up.test:8080"; return "DIRECT"; }`,
 		TransportCAPEM: s.pki.CAPEM,
 		ConnectTo:      []string{"redirected.test:80:ok.test:80"},
 	}
